@@ -188,8 +188,8 @@ impl<'a> Sink<'a> {
 }
 
 const ITEM_STRS: &[&str] = &["a", "bbb", "x::y", "", "f(\n    1,\n)", "    z", "q,"];
-const PRE_COMMENTS: &[&str] = &["/* p */", "// p", "// p\n// pp", "", "/* p\n * pp */", "  /* sp */", "/* p */ // pp"];
-const POST_COMMENTS: &[&str] = &["// q", "/* q */", "\n// nq", "/* q\n * qq */", "", " // sq", "// a long trailing comment", "/* q */ // qq", "/* q */\n/* qq */"];
+const PRE_COMMENTS: &[&str] = &["/* p */", "// p", "// p\n// pp", "", "/* p\n * pp */", "  /* sp */", "/* p */ // pp", "/* p\n     bare\n   */"];
+const POST_COMMENTS: &[&str] = &["// q", "/* q */", "\n// nq", "/* q\n * qq */", "", " // sq", "// a long trailing comment", "/* q */ // qq", "/* q */\n/* qq */", "/* q\n  bare */"];
 const SEPARATORS: &[&str] = &[",", " |", "", ";"];
 
 fn all_formattings(full: bool) -> Vec<hl::Formatting> {
@@ -321,7 +321,7 @@ fn rand_ws(rng: &mut Rng) -> &'static str {
 
 fn rand_comment(rng: &mut Rng) -> String {
     let words = |rng: &mut Rng| (0..rng.range(0, 4)).map(|_| rand_word(rng)).collect::<Vec<_>>().join(" ");
-    let body = match rng.below(12) {
+    let body = match rng.below(15) {
         0 => format!("// {}", words(rng)),
         1 => format!("/* {} */", words(rng)),
         2 => format!("// {}\n// {}", words(rng), words(rng)),
@@ -333,6 +333,9 @@ fn rand_comment(rng: &mut Rng) -> String {
         8 => format!("/** {} */ // {}", words(rng), words(rng)),
         9 => format!("/* {} */\n/* {} */", words(rng), words(rng)),
         10 => format!("//- {}\n    //- {}", words(rng), words(rng)),
+        11 => format!("/* {}\n    {}\n      {}\n */", words(rng), words(rng), words(rng)),
+        12 => format!("/*\n{}\n\t{}\n  */ // {}", words(rng), words(rng), words(rng)),
+        13 => format!("/* {}\n\n{} */\n/* {}\n   {} */", words(rng), words(rng), words(rng), words(rng)),
         _ => format!("// {}", (0..rng.range(10, 60)).map(|_| 'c').collect::<String>()),
     };
     format!("{}{}{}", rand_ws(rng), body, rand_ws(rng))
